@@ -5,6 +5,7 @@ prysm touches: disk (SimDisk), wall clock (SimClock), random source
 numpy."""
 import errno
 import io
+import os
 
 
 class SimCrash(BaseException):
@@ -64,6 +65,55 @@ class SimFile:
     def flush(self):
         pass
 
+    def fileno(self):
+        raise io.UnsupportedOperation("fileno")
+
+    def tell(self):
+        return self.written if ("w" in self.mode or "a" in self.mode) else self._rpos
+
+    def seek(self, pos, whence=0):
+        if "w" in self.mode or "a" in self.mode:
+            raise io.UnsupportedOperation("seek on a simulated write handle")
+        n = len(self.disk.files[self.path])
+        self._rpos = max(0, min(n, pos if whence == 0 else (self._rpos + pos if whence == 1 else n + pos)))
+        return self._rpos
+
+    def readable(self):
+        return "r" in self.mode
+
+    def writable(self):
+        return "w" in self.mode or "a" in self.mode
+
+    def seekable(self):
+        return "r" in self.mode
+
+    def readline(self, *a):
+        data = self.disk.files[self.path]
+        j = data.find(b"\n", self._rpos)
+        j = len(data) if j < 0 else j + 1
+        out = data[self._rpos:j]
+        self._rpos = j
+        return out if self.binary else out.decode("utf-8")
+
+    def readlines(self, *a):
+        out = []
+        while True:
+            ln = self.readline()
+            if not ln:
+                return out
+            out.append(ln)
+
+    def __iter__(self):
+        return iter(self.readlines())
+
+    def writelines(self, lines):
+        for ln in lines:
+            self.write(ln)
+
+    @property
+    def name(self):
+        return self.path
+
     def close(self):
         if self.closed:
             return
@@ -114,14 +164,22 @@ class SimDisk:
     def arm(self, path, fault):
         self.armed[str(path)] = dict(fault)
 
+    def _armed_for(self, path, is_read):
+        # a fault armed for P also applies to the writer's temporary siblings (P.part, P.tmp, ...)
+        for p in sorted(self.armed, key=len, reverse=True):
+            if path == p or (not is_read and path.startswith(p)):
+                if (self.armed[p]["kind"] == "eio_read") == is_read:
+                    return p
+        return None
+
     def open(self, path, mode="r", *a, **kw):
+        path = os.fspath(path) if not isinstance(path, str) else path
         path = str(path)
         fault = None
-        if path in self.armed:
-            f = self.armed[path]
-            is_read = "r" in mode
-            if (f["kind"] == "eio_read") == is_read:
-                fault = self.armed.pop(path)
+        is_read = "r" in mode and "+" not in mode
+        key = self._armed_for(path, is_read)
+        if key is not None:
+            fault = self.armed.pop(key)
         self.opens.append((path, mode))
         if "w" in mode:
             self.files[path] = b""           # opening for write truncates
@@ -129,6 +187,29 @@ class SimDisk:
             if path not in self.files:
                 raise FileNotFoundError(errno.ENOENT, "No such file (simulated)", path)
         return SimFile(self, path, mode, fault)
+
+    # -- the few file-system calls a writer may use around open()
+    def replace(self, src, dst):
+        src, dst = str(os.fspath(src)), str(os.fspath(dst))
+        if src not in self.files:
+            raise FileNotFoundError(errno.ENOENT, "No such file (simulated)", src)
+        self.files[dst] = self.files.pop(src)
+
+    def remove(self, path):
+        path = str(os.fspath(path))
+        if path not in self.files:
+            raise FileNotFoundError(errno.ENOENT, "No such file (simulated)", path)
+        del self.files[path]
+
+    def exists(self, path):
+        path = str(os.fspath(path))
+        return path in self.files or path.rstrip("/") == "/sim"
+
+    def getsize(self, path):
+        path = str(os.fspath(path))
+        if path not in self.files:
+            raise FileNotFoundError(errno.ENOENT, "No such file (simulated)", path)
+        return len(self.files[path])
 
     def path_class(self):
         disk = self
@@ -183,6 +264,93 @@ class SimClock:
 
     def advance(self, dt):
         self.now_s = min(max(self.now_s + dt, 0.0), 4294967295.0)
+
+    # should the code under test have `from datetime import datetime`, the shadow
+    # is used as the class itself
+    def now(self, tz=None):
+        return self.datetime.now(tz)
+
+    def utcnow(self):
+        return self.datetime.now().replace(tzinfo=None)
+
+    def today(self):
+        return self.datetime.now()
+
+    def fromtimestamp(self, *a, **k):
+        return self._dt.datetime.fromtimestamp(*a, **k)
+
+    def __call__(self, *a, **k):
+        return self._dt.datetime(*a, **k)
+
+    def __getattr__(self, key):
+        return getattr(self._dt, key)
+
+
+SIM_ROOT = "/sim/"
+
+
+def install_sim_os(disk, clock=None):
+    """Process-wide seams (only ever called inside a forked child): every file
+    operation on a path under /sim/ goes to the SimDisk, everything else to the
+    real OS; time.time()/time_ns() read the SimClock."""
+    import builtins
+    import os.path as osp
+    import time as _time
+    real_open = builtins.open
+
+    def is_sim(p):
+        try:
+            return str(os.fspath(p)).startswith(SIM_ROOT)
+        except TypeError:
+            return False
+
+    def sim_open(file, mode="r", *a, **kw):
+        if is_sim(file):
+            return disk.open(file, mode)
+        return real_open(file, mode, *a, **kw)
+
+    builtins.open = sim_open
+    io.open = sim_open
+
+    def wrap(real, simfn):
+        def f(path, *a, **kw):
+            if is_sim(path):
+                return simfn(path, *a, **kw)
+            return real(path, *a, **kw)
+        return f
+
+    def wrap2(real, simfn):
+        def f(src, dst, *a, **kw):
+            if is_sim(src) or is_sim(dst):
+                return simfn(src, dst)
+            return real(src, dst, *a, **kw)
+        return f
+
+    class _Stat:
+        def __init__(self, n):
+            self.st_size = n
+            self.st_mode = 0o100644
+            self.st_mtime = clock.now_s if clock else 0.0
+
+    os.replace = wrap2(os.replace, disk.replace)
+    os.rename = wrap2(os.rename, disk.replace)
+    os.remove = wrap(os.remove, disk.remove)
+    os.unlink = wrap(os.unlink, disk.remove)
+    os.stat = wrap(os.stat, lambda p, *a, **k: _Stat(disk.getsize(p)))
+    os.makedirs = wrap(os.makedirs, lambda p, *a, **k: None)
+    os.fsync = os.fsync
+    osp.exists = wrap(osp.exists, disk.exists)
+    osp.isfile = wrap(osp.isfile, lambda p: str(os.fspath(p)) in disk.files)
+    osp.getsize = wrap(osp.getsize, disk.getsize)
+    try:
+        import shutil
+        shutil.move = wrap2(shutil.move, disk.replace)
+        shutil.copyfile = wrap2(shutil.copyfile, lambda s, d: disk.files.__setitem__(str(d), disk.files[str(s)]))
+    except Exception:
+        pass
+    if clock is not None:
+        _time.time = lambda: clock.now_s
+        _time.time_ns = lambda: int(clock.now_s * 1e9)
 
 
 class BackendProxy:
